@@ -17,7 +17,9 @@
 // fmt.Errorf("…: %w", context.Canceled), deadline / wrapdeadline = the same for
 // context.DeadlineExceeded — all of them failures of the *source*: nobody has cancelled the consumer's
 // or Batch's own context) | next live | next dead |
-// cancel (the pending Next's context) | sleep <ms> | fullret (one gated full() call may return) |
+// cancel (the pending Next's context) | sleep <ms> (virtual time; any length — scenarios idle for 59 s,
+// 61 s, an hour, 25 hours with the producer parked in the source's Next: Batch's own background context
+// must not end, nothing may be reported, and when the source goes on nothing may be missing) | fullret (one gated full() call may return) |
 // fullopen (full() is no longer gated) | close | srcclosed (scenarios with a `slowclose` line: the
 // source's Close takes time — the call returns only when the script says so; what the stream does in
 // the meantime, in particular whether its own Close returns, is judged).
@@ -343,7 +345,8 @@ func (o Obs) Line() string {
 
 type callRes struct {
 	kind    string // batch | end | err | ctx | other
-	batch   []int
+	batch   []int  // copy made the moment Next returned
+	raw     []int  // the slice Next returned itself (re-read at the end of the scenario: it is the consumer's)
 	t       int64
 	step    int  // index of the step in which the completion was observed
 	live    bool // the call's context was never cancelled by the script
@@ -480,7 +483,7 @@ func bubble(scn Scn, tr *Trace) (closeReturned bool) {
 			src.mu.Unlock()
 			switch {
 			case err == nil:
-				r.kind, r.batch = "batch", append([]int{}, b...)
+				r.kind, r.batch, r.raw = "batch", append([]int{}, b...), b
 			case err == stream.End:
 				r.kind = "end"
 			case err == errSrc:
@@ -531,6 +534,12 @@ func bubble(scn Scn, tr *Trace) (closeReturned bool) {
 		case "sleep":
 			if a.V <= 0 {
 				continue
+			}
+			if a.V >= 59_000 {
+				tr.Features["idle-for-a-minute-or-more"] = true
+				if pending {
+					tr.Features["idle-with-next-pending"] = true
+				}
 			}
 			time.Sleep(time.Duration(a.V) * time.Millisecond)
 		case "fullret":
@@ -621,6 +630,24 @@ func bubble(scn Scn, tr *Trace) (closeReturned bool) {
 		src.mu.Unlock()
 		mu.Unlock()
 	}
+	// A batch that was handed out belongs to the consumer: whatever the stream did afterwards, the
+	// slices returned by Next still hold what they held when they were returned (every goroutine of the
+	// stream is blocked or gone here; on a stream that re-uses the backing array of a batch it handed out
+	// a later item has overwritten an earlier batch by now).
+	mu.Lock()
+	for i, r := range tr.Results {
+		if r.kind != "batch" {
+			continue
+		}
+		same := len(r.raw) == len(r.batch)
+		for j := 0; same && j < len(r.batch); j++ {
+			same = r.raw[j] == r.batch[j]
+		}
+		if !same {
+			tr.add("c11-lost-or-duplicated", fmt.Sprintf("result %d: Next returned the batch %v at t=%d; at the end of the scenario the same slice holds %v (the stream wrote into a batch it had handed out)", i, r.batch, r.t, r.raw))
+		}
+	}
+	mu.Unlock()
 	return closeRet
 }
 
@@ -915,6 +942,66 @@ func directedSlowClose() []Scn {
 	return out
 }
 
+// idleDurations: how long (virtual ms) a scenario may do nothing at all: just below / above a minute,
+// just above an hour, 25 hours. Nothing in Batch has a deadline: the stream must be exactly where it
+// was afterwards.
+var idleDurations = []int{59_000, 61_000, 3_600_001, 90_000_000}
+
+// directedIdle: the stream idles for a long time — the producer parked in the source's Next (which
+// honours the context it was given: it returns ctx.Err() as soon as that context is done), with and
+// without a consumer's Next pending, with an empty and with a non-empty underfilled batch, right at
+// the start and after batches were delivered, the batcher inside a gated full(), Batch and BatchFunc —
+// and then the source goes on (items, end, an error of its own, also context.DeadlineExceeded as the
+// source's own failure) and the consumer reads to the end. Judged by the ordinary monitors: nothing
+// lost (c11-lost-or-duplicated at End), no error nobody produced (c11-/c08-other-error), no End before
+// the source's (c11-end-without-source-end), nothing held back, Close returns. Run in every tier.
+func directedIdle() []Scn {
+	var out []Scn
+	live := Act{Op: "next", V: 1}
+	rel := func(v int) Act { return Act{Op: "rel", V: v} }
+	sl := func(d int) Act { return Act{Op: "sleep", V: d} }
+	eof := Act{Op: "eof"}
+	bases := []Scn{{Mode: "batch", MaxWait: 2, Size: 2}, {Mode: "batch", MaxWait: 10, Size: 3}, {Mode: "func", MaxWait: 3},
+		{Mode: "batch", MaxWait: 2, Size: 2, CtxFirst: true}}
+	for _, base := range bases {
+		mw := base.MaxWait
+		m := 0 // "marked" offset: in func mode every second item fills the batch
+		if base.Mode == "func" {
+			m = 1000
+		}
+		for _, d := range idleDurations {
+			for _, script := range [][]Act{
+				// nobody asks, nothing in the batch
+				{sl(d), rel(1), rel(2 + m), live, live, eof, live, live},
+				// a consumer waits at the empty batch
+				{live, sl(d), rel(1), sl(mw + 1), rel(2), rel(3 + m), live, live, eof, live, live},
+				// an underfilled batch sits there, nobody asks
+				{rel(1), sl(d), live, rel(2), rel(3 + m), live, eof, live, live},
+				// a waiter got the underfilled batch after maxWait; idle; again
+				{live, rel(1), sl(d), rel(2), live, sl(d), eof, live, live},
+				// after full batches were delivered
+				{rel(1), rel(2 + m), live, sl(d), rel(3), live, sl(mw + 1), sl(d), rel(4), rel(5 + m), live, eof, live, live},
+				// then the source fails: its own error value / context.DeadlineExceeded as its own failure
+				{live, sl(d), {Op: "err"}, live},
+				{sl(d), rel(1), {Op: "err", V: 3}, live, live, live},
+				// then a call with a dead context, then Close
+				{live, sl(d), {Op: "cancel"}, {Op: "next", V: 0}, rel(1), {Op: "close"}},
+			} {
+				sc := base
+				sc.Script = append([]Act{}, script...)
+				out = append(out, sc)
+			}
+		}
+	}
+	// the batcher sits inside the user's full() for the whole time
+	for _, d := range idleDurations {
+		out = append(out,
+			Scn{Mode: "func", MaxWait: 2, Gated: true, Script: []Act{rel(1), sl(d), {Op: "fullret"}, live, sl(3), rel(1002), {Op: "fullopen"}, live, eof, live, live}},
+			Scn{Mode: "func", MaxWait: 2, Gated: true, Script: []Act{live, rel(1), sl(d), {Op: "fullopen"}, sl(3), eof, live, live}})
+	}
+	return out
+}
+
 func genScnFast(r *vlib.Rand, res *vlib.Result) Scn {
 	g := &gen{r: r}
 	s := Scn{Mode: "batch", MaxWait: []int{0, 1, 2, 3, 5, 10}[r.Intn(6)], Size: r.Range(1, 4), CtxFirst: r.Chance(1, 3)}
@@ -928,6 +1015,10 @@ func genScnFast(r *vlib.Rand, res *vlib.Result) Scn {
 	mw := s.MaxWait
 	sleeps := []int{1, 2, mw - 1, mw, mw + 1, 2*mw + 1}
 	sleep := func() Act {
+		if r.Chance(1, 10) { // idle for a minute / an hour / a day
+			res.Count("gen-long-sleep")
+			return Act{Op: "sleep", V: idleDurations[r.Intn(len(idleDurations))]}
+		}
 		d := sleeps[r.Intn(len(sleeps))]
 		if d <= 0 {
 			d = 1
@@ -1102,6 +1193,29 @@ func checkScn(t *testing.T, scn Scn, m *vlib.Model, repeats int) outcome {
 	return out
 }
 
+// shrinkSleeps: after the script has been shrunk, every long idle is replaced by the shortest of the
+// idle durations (and 1 ms) that still shows the failure.
+func shrinkSleeps(scn Scn, fails func(Scn) bool) Scn {
+	for i, a := range scn.Script {
+		if a.Op != "sleep" || a.V < idleDurations[0] {
+			continue
+		}
+		for _, d := range append([]int{1}, idleDurations...) {
+			if d >= a.V {
+				break
+			}
+			c := scn
+			c.Script = append([]Act{}, scn.Script...)
+			c.Script[i].V = d
+			if fails(c) {
+				scn = c
+				break
+			}
+		}
+	}
+	return scn
+}
+
 func hasKind(vs []Viol, k string) (Viol, bool) {
 	for _, v := range vs {
 		if v.Kind == k {
@@ -1143,6 +1257,10 @@ func record(t *testing.T, scn Scn, m *vlib.Model, repeats int, res *vlib.Result)
 			s2 := scn
 			s2.Script = c
 			_, hit := hasKind(checkScn(t, s2, nil, repeats).viols, v.Kind)
+			return hit
+		})
+		small = shrinkSleeps(small, func(c Scn) bool {
+			_, hit := hasKind(checkScn(t, c, nil, repeats).viols, v.Kind)
 			return hit
 		})
 		what := v.What
@@ -1237,6 +1355,10 @@ func TestVerif(t *testing.T) {
 		res.Count("directed-slow-close")
 		record(t, scn, m, repeats, res)
 	}
+	for _, scn := range directedIdle() {
+		res.Count("directed-idle")
+		record(t, scn, m, 4, res)
+	}
 	r := vlib.NewRand(env.Seed)
 	deadline := env.Deadline()
 	if raceEnabled {
@@ -1271,9 +1393,9 @@ func exhaustive(t *testing.T, m *vlib.Model, res *vlib.Result, deadline time.Tim
 			[]Act{{Op: "rel"}, {Op: "next", V: 1}, {Op: "next", V: 0}, {Op: "cancel"}, {Op: "sleep", V: 1}, {Op: "sleep", V: 3}, {Op: "eof"}, {Op: "err"}, {Op: "close"}}, 5},
 		{Scn{Mode: "func", MaxWait: 2, Gated: true},
 			[]Act{{Op: "rel"}, {Op: "rel", V: 1000}, {Op: "next", V: 1}, {Op: "cancel"}, {Op: "sleep", V: 1}, {Op: "sleep", V: 3}, {Op: "fullret"}, {Op: "eof"}, {Op: "close"}}, 5},
-		// a source that fails with context-flavoured errors of its own
+		// a source that fails with context-flavoured errors of its own; the stream may idle for an hour
 		{Scn{Mode: "batch", MaxWait: 2, Size: 2},
-			[]Act{{Op: "rel"}, {Op: "next", V: 1}, {Op: "next", V: 0}, {Op: "cancel"}, {Op: "sleep", V: 3}, {Op: "err", V: 1}, {Op: "err", V: 2}, {Op: "err", V: 3}, {Op: "close"}}, 4},
+			[]Act{{Op: "rel"}, {Op: "next", V: 1}, {Op: "next", V: 0}, {Op: "cancel"}, {Op: "sleep", V: 3}, {Op: "sleep", V: 3_600_001}, {Op: "err", V: 1}, {Op: "err", V: 2}, {Op: "err", V: 3}, {Op: "close"}}, 4},
 		// a source whose Close takes time (a script may go on after `close`: the source's Close returns later)
 		{Scn{Mode: "batch", MaxWait: 2, Size: 2, SlowClose: true},
 			[]Act{{Op: "rel"}, {Op: "next", V: 1}, {Op: "sleep", V: 3}, {Op: "eof"}, {Op: "err"}, {Op: "close"}, {Op: "srcclosed"}}, 4},
